@@ -40,6 +40,7 @@ pub fn exec_scenario(sc: &Scenario, uni: Option<crate::keys::KeyUniverse>, prop:
             log_digest: 0,
             log: vec![],
             harness_errors: vec![format!("world setup failed: {}", e)],
+            artifacts: vec![],
         },
     }
 }
